@@ -166,6 +166,9 @@ func runResp(raw json.RawMessage, seed int64, rec *Rec) {
 			case "connect":
 				var end string
 				meta := `"metadata":{"` + key + `":["mv"]}`
+				if s.Casing == "both" { // one field spelled in two casings: the same field for HTTP
+					meta = `"metadata":{"X-Meta":["mv"],"x-meta":["mv2"]}`
+				}
 				switch s.Cerr {
 				case "none":
 					end = "{" + meta + "}"
@@ -187,6 +190,9 @@ func runResp(raw json.RawMessage, seed int64, rec *Rec) {
 					sb.WriteString(casingOf("Grpc-Status-Details-Bin", s.Casing) + ": " + v + "\r\n")
 				}
 				sb.WriteString(key + ": mv\r\n")
+				if s.Casing == "both" {
+					sb.WriteString("x-meta: mv2\r\n")
+				}
 				body = append(body, refcodec.Envelope(0x80, []byte(sb.String()))...)
 			}
 		}
@@ -201,6 +207,9 @@ func runResp(raw json.RawMessage, seed int64, rec *Rec) {
 				trailer.Set("Grpc-Status-Details-Bin", v)
 			}
 			trailer.Set("X-Meta", "mv")
+			if s.Casing == "both" {
+				trailer.Add("X-Meta", "mv2")
+			}
 		}
 	}
 	if s.Fuzz > 0 {
@@ -314,13 +323,20 @@ func runResp(raw json.RawMessage, seed int64, rec *Rec) {
 	}
 	fake.wg.Wait()
 	lookup := "miss"
+	found := func(h http.Header) bool {
+		vs := h.Values("X-Meta")
+		if s.Casing == "both" { // every value, whatever the spelling of its key (order between spellings is open)
+			return len(vs) == 2 && ((vs[0] == "mv" && vs[1] == "mv2") || (vs[0] == "mv2" && vs[1] == "mv"))
+		}
+		return len(vs) == 1 && vs[0] == "mv"
+	}
 	if cerr != nil {
 		var ce *connect.Error
-		if asConnect(cerr, &ce) && ce.Meta().Get("X-Meta") == "mv" {
+		if asConnect(cerr, &ce) && found(ce.Meta()) {
 			lookup = "hit"
 		}
 	}
-	if trl != nil && trl.Get("X-Meta") == "mv" {
+	if trl != nil && found(trl) {
 		lookup = "hit"
 	}
 	rec.Add(E("done", "ok", cerr == nil, "code", codeOf(cerr), "n", n, "lookup", lookup, "closed", atomic.LoadInt64(&closes)))
